@@ -326,9 +326,10 @@ def sweep(run, tier, rng):
     reps = 150 if tier == "quick" else 3000
     cases = []
     for t in range(reps):
-        n_particles = rng.choice([4, 8, 16])
+        n_particles = rng.choice([4, 8, 16, 10, 25])
         T = rng.choice([1, 2, 3, 5, 8])
-        ess_ratio = rng.choice([0.5, 1.0, 2.0, 3.0])
+        # the ESS target ess_ratio * n_particles is in general not a whole number (0.37*10 = 3.7; 0.29*25 = 7.25; 1.7*10 = 17)
+        ess_ratio = rng.choice([0.5, 1.0, 2.0, 3.0, 0.37, 0.29, 1.7, 2.45])
         vv = rng.choice([None, None, 0.1, 0.5, 1.0])
         synth_kind = rng.choice([None, None, "noise", "decreasing", "bumpy", "cliff"])
         st, betas = build(rng, T, n_particles)
